@@ -338,8 +338,10 @@ static void run_op(DocWorld &w, const Op &op)
 		c.count("probe.export_ok");
 	    } else {
 		c.count("probe.export_faulted");
-		if (rc == 0 && crc == 0) c.count("probe.export_ok_despite_fault");
 		w.files_ok.erase(name);
+		// an export that reports success although a fault fired must still have written the
+		// whole tree (the call "either still succeeds or fails")
+		if (rc == 0 && crc == 0) { c.count("probe.export_ok_despite_fault"); w.files[name] = m; w.files_ok.insert(name); }
 		if (rc != 0 && cb && ncb == 0) { c.violate("model", "export:callback", "failed export reported nothing through the callback"); return; }
 	    }
 	}
@@ -352,7 +354,7 @@ static void run_op(DocWorld &w, const Op &op)
 	bool cb = op.I(1) != 0;
 	bool into_empty = w.roots[ri] == nullptr;
 	int rc;
-	bool fired;
+	bool fired, storage_fault = false;
 	size_t ncb;
 	int cat0 = -1;
 	{
@@ -373,6 +375,7 @@ static void run_op(DocWorld &w, const Op &op)
 		rc = vnaproperty_import_yaml_from_string(rootp, text.c_str(), cb ? sim_error_fn : nullptr, nullptr);
 	    }
 	    fired = g_sim.fired_vna || g_sim.fired_yaml || g_sim.fired_read_eio || g_sim.fired_read_eof || g_sim.fired_open;
+	    storage_fault = g_sim.fired_read_eio || g_sim.fired_read_eof || g_sim.fired_open;
 	    ncb = g_sim.callbacks.size();
 	    if (ncb) cat0 = g_sim.callbacks[0].category;
 	    lc.done();
@@ -383,7 +386,10 @@ static void run_op(DocWorld &w, const Op &op)
 		if (ncb && cat0 != VNAERR_WARNING) { c.violate("model", "import:callback", "callback on a successful import: " + g_sim.callbacks[0].msg); return; }
 	    }
 	}
-	if (!fired && w.files_ok.count(name) && into_empty) {
+	// a stream that ends early or errors hands the library different (possibly still valid) text;
+	// an allocation failure does not: there a call that reports success must have the full effect
+	if ((!fired || (rc == 0 && !storage_fault)) && w.files_ok.count(name) && into_empty) {
+	    if (fired) c.count("probe.import_ok_despite_fault");
 	    m = w.files[name];
 	    c.count("probe.import_ok");
 	    c.nontrivial = c.nontrivial || w.files[name].nodes() > 1;
